@@ -65,6 +65,16 @@ class MessageAssembler:
         self.packet_count = 0
 
     def on_pdu(self, pdu: bytes) -> None:
+        # A PDU has at least a header byte and a PID (preceded by the number of
+        # packets in START packets)
+        if len(pdu) < 3 or (
+            Protocol.PacketType((pdu[0] >> 2) & 3) == Protocol.PacketType.START
+            and len(pdu) < 4
+        ):
+            logger.warning("PDU too short")
+            self.reset()
+            return
+
         self.packets_received += 1
 
         transaction_label = pdu[0] >> 4
